@@ -13,7 +13,7 @@ EXPLANATION = (
     "R9.4 external subcommands: values stored verbatim (to_os_string of RawArgs::remaining items) and the parse returns "
     "right after. R9.5 short flag-subcommand resume: parse_short_arg reads flag_subcmd_skip once, resets it to 0 and then "
     "advances the cluster by that amount; the parent records flag_subcmd_skip only together with the backward seek. "
-    "R9.6 (shared with C08) the recognisers behind find_subcommand / find_short_subcmd / find_long_subcmd answer to the primary name or flag or ANY alias on every path. R9.7 parse_long_arg checks for a long flag-subcommand before the positional allow_hyphen_values fallback. R9.5b the remembered flag-subcommand position does not outlive its cluster: parse_short_arg clears flag_subcmd_at when it starts a cluster it is not resuming (skip == 0), before walking the flags — otherwise a later flag subcommand computes its resume offset from a stale position. R9.5c the resume offset covers the whole cluster: the position it is counted from is fixed before the first flag of the cluster is processed, not when the flag subcommand is met (flags in front of it, as in `-vSyu`, must be skipped by the sub-parser too). NOT decided: agreement of values at every level for all trees (needs execution)."
+    "R9.6 (shared with C08) the recognisers behind find_subcommand / find_short_subcmd / find_long_subcmd answer to the primary name or flag or ANY alias on every path. R9.7 parse_long_arg checks for a long flag-subcommand before the positional allow_hyphen_values fallback. R9.5b the remembered flag-subcommand position does not outlive its cluster: parse_short_arg clears flag_subcmd_at when it starts a cluster it is not resuming (skip == 0), before walking the flags — otherwise a later flag subcommand computes its resume offset from a stale position. R9.5c the resume offset covers the whole cluster: the position it is counted from is fixed before the first flag of the cluster is processed, not when the flag subcommand is met (flags in front of it, as in `-vSyu`, must be skipped by the sub-parser too). R9.8 the subcommand lookup for a token is skipped exactly in the states Opt and Pos (unless subcommand_precedence_over_arg). NOT decided: agreement of values at every level for all trees (needs execution)."
 )
 TRUSTED = ["rustc MIR", "clapfacts"]
 ASSUMPTIONS = ["FlatMap::insert replaces an existing entry"]
@@ -195,3 +195,19 @@ def run(ctx):
     if est or est_w:
         res.check(bool(starts) and not (late and not starts), "R9.5", "resume-offset-counts-whole-cluster", (late[0].where() if late else ps.where()),
                   "the reference position is fixed before the cluster's first flag", "the position the resume offset is counted from is recorded only when the flag subcommand is met (get_or_insert in the find_short_subcmd arm): flags that precede it in the same cluster are not skipped by the sub-parser — `-vSyu` is rejected while `-v -Syu` parses")
+
+    # ---- R9.8 a word is looked up as a subcommand only when no option/positional is still collecting values (or precedence is asked for)
+    ppm = fx.body("clap_builder::parser::parser::Parser::parse")
+    look = [c for c in ppm.calls_to(r"Parser::possible_subcommand$") if re.search(r"^to_value\(next\(raw_args", expr(ppm, c.args[1]))]
+    prec = ppm.calls_to(r"Command::is_subcommand_precedence_over_arg_set$")
+    res.floor("R9.8", "subcommand lookup for the current token", len(look), 1)
+    res.floor("R9.8", "subcommand_precedence_over_arg test", len(prec), 1)
+    if look and prec:
+        names = enum_variants(fx, "parser::parser::ParseState")
+        sws = [(i, tg) for (i, pl, ty, tg, ow) in ppm.discr_switches() if "ParseState" in (ty or "") and ppm.reaches(prec[0].bb, i) and look[0].bb in ppm.reachable(i, without_blocks=(prec[0].bb,))]
+        sws = [(i, tg) for (i, tg) in sws if ppm.block_dominates(prec[0].bb, i)]
+        res.floor("R9.8", "parse-state test guarding the subcommand lookup", len(sws), 1)
+        for i, tg in sws[:1]:
+            listed = sorted(names[v] if names and v < len(names) else str(v) for v in tg)
+            res.check(listed == ["Opt", "Pos"], "R9.8", "no-subcommand-lookup-while-collecting", "%s bb%d" % (ppm.where(), i), "lookup skipped while an option or positional collects values (Opt, Pos)",
+                      "the subcommand lookup is skipped only in states %s: a word that spells a subcommand is taken away from the argument that is still collecting values" % listed)
